@@ -96,7 +96,10 @@ where
                 // the constraint. The constraint implies that min(u) <= max(v).
                 let vmax = vdomain.max();
                 let umin = udomain.min();
+                // The constraint goes back to the store first, so that it is re-run if the
+                // narrowing below binds one of its operands.
                 Ok(state
+                    .with_constraint(self.clone())
                     .process_domain(
                         &uwalk,
                         Rc::new(udomain.copy_before(|u| vmax < *u).ok_or(())?),
@@ -104,8 +107,7 @@ where
                     .process_domain(
                         &vwalk,
                         Rc::new(vdomain.drop_before(|v| umin <= *v).ok_or(())?),
-                    )?
-                    .with_constraint(self))
+                    )?)
             }
             (Some(udomain), None) if vwalk.is_number() => {
                 // The variable `u` has an assigned domain, and variable `v` has been bound
